@@ -1,7 +1,7 @@
 """Which engine units decide which property.  Keys are property ids of /verif/properties.jsonl."""
 PROPS = {
     "C01": {
-        "vx": ["simplify_rules"],
+        "vx": ["simplify_rules", "context"],
         "ax": True,
         "level": "proof",
     },
@@ -25,6 +25,14 @@ PROPS = {
     },
     "C09": {
         "vx": ["btor2_roundtrip"],
+        "level": "proof",
+    },
+    "C12": {
+        "vx": ["context"],
+        # canonical / stable is carried by add_expr, the literal interning path, the cached constants and the growth lemmas;
+        # WHAT each operator builder denotes belongs to the chain of C01 (which runs the whole unit)
+        "only": {"context": r"^(add_expr|Context::index|get_true|get_false|bv_lit|BVLitValue::|lemma_|theorem_)"},
+        "ax": True,
         "level": "proof",
     },
     "C13": {
